@@ -16,7 +16,7 @@ class GenError(Exception):
 HEADERS = ["yara/limits.h", "yara/arena.h", "yara/re.h", "yara/exec.h", "yara/types.h", "yara/error.h",
            "yara/ahocorasick.h", "yara/atoms.h", "yara/scan.h", "yara/rules.h", "yara/scanner.h",
            "yara/object.h", "yara/sizedstr.h", "yara/utils.h", "yara/compiler.h", "yara/libyara.h"]
-PREFIXES = ("YR_", "RE_", "OP_", "ERROR_", "CALLBACK_", "SCAN_FLAGS_", "STRING_FLAGS_", "RULE_FLAGS_",
+PREFIXES = ("EXPRESSION_TYPE_", "YR_", "RE_", "OP_", "ERROR_", "CALLBACK_", "SCAN_FLAGS_", "STRING_FLAGS_", "RULE_FLAGS_",
             "EXTERNAL_VARIABLE_TYPE_", "META_", "OBJECT_TYPE_", "SIZED_STRING_FLAGS_", "EOL", "ATOM_",
             "NAMESPACE_", "YARA_ERROR_LEVEL", "_OP_", "MAX_", "MEM_SIZE")
 SKIP = {"YR_API", "YR_ALIGN", "YR_DEPRECATED_API", "YR_ARENA_NULL_REF", "YR_PRINTF_LIKE", "YR_UNDEFINED",
@@ -208,8 +208,9 @@ def regenerate(only=None):
 
 if __name__ == "__main__":
     import sys
-    import genfold  # noqa: registers more generators
-    r = regenerate()
+    import gen as G   # the importable instance (generators register there)
+    import genfold  # noqa
+    r = G.regenerate()
     for k, v in r.items():
         print(k, v)
     if "--update-ref" in sys.argv:
